@@ -433,6 +433,11 @@ public:
             nev_adj = nev_adjusted(nconv);
             restart(nev_adj, selection);
         }
+        // If the iteration limit has been reached, the Ritz pairs produced by the last
+        // restart (or by the initial factorization when maxit = 0) have not been tested yet,
+        // so refresh the convergence flags to make them describe the current Ritz pairs
+        if (i >= maxit)
+            nconv = num_converged(tol);
         // Sorting results
         sort_ritzpair(sorting);
 
